@@ -176,7 +176,12 @@ def run_history(ctx, store, imp, cls, hist):
             return False
         # ---- imports land complete (collision of internal keys would show as a deficit)
         if exc is None and op['op'] in ('import_string', 'import_direct', 'delete_then_reimport'):
-            skip = (store == 'disjoint' and op['op'] != 'import_direct' and op['g'] in used_ids)
+            # one-graph-per-store flavour: an id that was ever touched (even by a delete, which creates the emptied entry)
+            # is documented as 'already present, import skipped' - the target's content is not judged there
+            skip = (store == 'disjoint' and op['op'] != 'import_direct' and
+                    (op['g'] in used_ids or op['op'] == 'delete_then_reimport'))
+            if skip:
+                ctx.count('import-content-not-judged(disjoint, id seen before)')
             if not skip:
                 ctx.count('import-content-checked')
                 exp = rawgraph.expected_canon(op['desc'])
